@@ -292,8 +292,12 @@ KEY_FORK = "fork_child_inherits_slow_io_count"
 
 
 def api_cases():
-    return ["%s %d %s %d" % (a, fill, fate, -2 if a == "fs_missing" else 0)
-            for a in API_NAMES for fill in (0, 0x5A, 0xFF) for fate in ("run", "cancel", "busy")]
+    out = ["%s %d %s %d" % (a, fill, fate, -2 if a == "fs_missing" else 0)
+           for a in API_NAMES for fill in (0, 0x5A, 0xFF) for fate in ("run", "cancel", "busy")]
+    # pools of 2, 3, 4 and 8 threads: everything must complete as well
+    out += ["%s %d run %d %d" % (a, 0x5A, -2 if a == "fs_missing" else 0, size)
+            for size in (2, 3, 4, 8) for a in API_NAMES]
+    return out
 
 
 def api_fields(line):
@@ -302,10 +306,11 @@ def api_fields(line):
 
 def api_monitor_for(full):
     def monitor(case, line):
-        api, fill, fate, wres = case.split()
-        what = "%s on memory filled with 0x%02X, %s" % (
+        api, fill, fate, wres = case.split()[:4]
+        size = case.split()[4] if len(case.split()) > 4 else "1"
+        what = "%s (UV_THREADPOOL_SIZE=%s) on memory filled with 0x%02X, %s" % (
             {"work": "uv_queue_work", "work0": "uv_queue_work(after_work_cb = NULL)", "rnd": "uv_random",
-             "gai": "uv_getaddrinfo", "gni": "uv_getnameinfo"}.get(api, "uv_" + api), int(fill),
+             "gai": "uv_getaddrinfo", "gni": "uv_getnameinfo"}.get(api, "uv_" + api), size, int(fill),
             {"run": "run to completion", "cancel": "cancelled while queued", "busy": "uv_cancel while running/finished"}[fate])
         f = api_fields(full.get(case, ""))
         if set(f) != {"sub", "can", "cbs", "st", "unreg", "run", "close"}:
@@ -357,6 +362,7 @@ def harness_error(line):
 
 def main():
     chk = vf.Check("C08")
+    harness_errors = []      # reported with exit 2 only when no part found a violation
     thorough = chk.tier == "thorough"
     chk.prove()
     try:
@@ -365,6 +371,7 @@ def main():
         hkinds = vf.cc_harness(chk.scratch, "c08_kinds", ["c08_kinds.c"], lib=lib, wraps=["uv__work_submit"])
         hapi = vf.cc_harness(chk.scratch, "c08_api", ["c08_api.c"], lib=lib)
         hfork = vf.cc_harness(chk.scratch, "c08_fork", ["c08_fork.c"], lib=lib)
+        hthr = vf.cc_harness(chk.scratch, "c08_threshold", ["c08_threshold.c"], lib=lib)
         model = vf.model_bin("C08")
     except vf.BuildError as e:
         chk.violation("build failed: %s" % str(e)[:300], {"kind": "build", "log": str(e)}, found_input=False)
@@ -389,9 +396,8 @@ def main():
             ka = [("? " + l.split()[1]) if c == "work" and l.split()[:1] == ["c"] else l for c, l in zip(kc, ka)]
         bad = [l for l in ka if len(l.split()) != 2]
         if bad and all(w in l for l in bad for w in ["fail"]) or len(ka) != len(kc):
-            print("HARNESS-ERROR: kind harness: %r" % (bad[:2] or "line count",))
-            chk.scratch.cleanup()
-            sys.exit(2)
+            harness_errors.append("kind harness: %r" % (bad[:2] or "line count",))
+            return
         vf.diff_cases(chk, "work kind of every API = Model/ThreadPool.v api_kind (kind table)", kc, ka, kb,
                       kind_monitor)
         chk.cov["kind_table"] = {"cases": len(kc), "apis": 2 + len(FS_OPS) + 2,
@@ -404,9 +410,8 @@ def main():
         aa, _, _ = vf.run_lines([hapi], ac, env=dict(env, C08_SCRATCH_DIR=sdir), shards=8, timeout=900)
         ab, _, _ = vf.run_lines([model, "api"], ac)
         if len(aa) != len(ac):
-            print("HARNESS-ERROR: api harness printed %d lines for %d cases" % (len(aa), len(ac)))
-            chk.scratch.cleanup()
-            sys.exit(2)
+            harness_errors.append("api harness printed %d lines for %d cases" % (len(aa), len(ac)))
+            return
         full = dict(zip(ac, aa))
         cmp_lines = []
         for l in aa:
@@ -422,18 +427,64 @@ def main():
         fa, _, _ = vf.run_lines([hfork], fc, env=env, shards=6, timeout=900)
         cur, _, _ = vf.run_lines([model, "fork"], fc)
         fix, _, _ = vf.run_lines([model, "forkfix"], fc)
-        if len(fa) != len(fc) or any(w in l for l in fa for w in ("hang", "crash", "initfail", "forkfail", "bad")):
-            print("HARNESS-ERROR: fork harness: %r" % ([l for l in fa if "=" not in l][:2] or len(fa),))
-            chk.scratch.cleanup()
-            sys.exit(2)
-        chk.cov["fork_child_sees_counters"] = sorted(set(l.split()[-1] for l in fa))
-        fa = [" ".join(l.split()[:3]) for l in fa]
-        # the model of the current code inherits the counters; a tree that resets them
-        # (notes/C08_fix_fork_counters.diff) is compared with the fixed model
+        if len(fa) != len(fc):
+            harness_errors.append("fork harness printed %d lines for %d cases" % (len(fa), len(fc)))
+            return
+        broken = [l for l in fa if len(l.split()) != 4]
+        if broken:                   # run them again: a hang that repeats is the library's
+            again, _, _ = vf.run_lines([hfork], [c for c, l in zip(fc, fa) if len(l.split()) != 4], env=env, timeout=900)
+            if [l.split()[-1:] for l in again] != [l.split()[-1:] for l in broken]:
+                harness_errors.append("fork harness: %r then %r" % (broken[:2], again[:2]))
+                return
+        inherited = {c: (l.split()[3] if len(l.split()) == 4 else "") for c, l in zip(fc, fa)}
+        chk.cov["fork_child_sees_counters"] = sorted(set(inherited.values()))
+        fa = [" ".join(l.split()[:3]) if len(l.split()) == 4 else l for l in fa]
+        # the model of the pre-fix code inherits the counters (fork_child); a tree that resets them
+        # (98bcc59, notes/C08_fix_fork_counters.diff) is compared with fork_child_fixed
         fixed_tree = [a == y and a != x for a, x, y in zip(fa, cur, fix)]
-        chk.cov["fork_fix_present"] = any(fixed_tree)
-        fb = [y if ft else x for ft, x, y in zip(fixed_tree, cur, fix)]
-        vf.diff_cases(chk, "pool of a forked child = Model/ThreadPool.v fork_child", fc, fa, fb, fork_monitor)
+        inherits = [a == x and a != y for a, x, y in zip(fa, cur, fix)]
+        chk.cov["fork_fix_present"] = any(fixed_tree) or not any(inherits)
+        fb = [x if inh else y for inh, x, y in zip(inherits, cur, fix)]
+
+        def monitor(case, line):
+            f = line.split()
+            if len(f) != 3:
+                return "forked child (pool of %s, %s slow requests at the fork): the run ended with %r" % \
+                    (case.split()[0], case.split()[1], line)
+            if f[1] != "cpu=1":
+                return "the CPU request of the forked child did not complete"
+            if f[0] != "slow=1" or f[2] != "v0":
+                n = int(case.split()[0])
+                inh = inherited.get(case, "").replace("inherited=", "").split(",")
+                if inh and inh[0].isdigit() and int(inh[0]) >= (n + 1) // 2:
+                    return "KNOWN:" + KEY_FORK
+                return "pool of %d threads, child of a fork with slow_io_work_running=%s: its slow request never runs" \
+                    % (n, inh[0] if inh else "?")
+            return None
+        vf.diff_cases(chk, "pool of a forked child = Model/ThreadPool.v fork_child", fc, fa, fb, monitor)
+
+    # slow_work_thread_threshold() itself, for every pool size init_threads can produce
+    def threshold_part():
+        rng_lines = ["%d %d" % (a, min(a + 127, 1024)) for a in range(1, 1025, 128)]
+        ta, _, _ = vf.run_lines([hthr], rng_lines)
+        tb, _, _ = vf.run_lines([model, "threshold"], rng_lines)
+        cases_t, ia, ib = [], [], []
+        if len(ta) != len(rng_lines) or len(tb) != len(rng_lines):
+            harness_errors.append("threshold harness printed %d/%d lines" % (len(ta), len(tb)))
+            return
+        for la, lb in zip(ta, tb):
+            for x, y in zip(la.split(), lb.split()):
+                cases_t.append("nthreads=" + x.split(":")[0]); ia.append(x); ib.append(y)
+
+        def monitor(case, line):
+            n, t = [int(v) for v in line.split(":")]
+            if not (1 <= t <= n):
+                return "slow_work_thread_threshold() = %d for a pool of %d threads: %s" % \
+                    (t, n, "no slow-I/O request can ever run" if t < 1 else "more than the pool")
+            if t != (n + 1) // 2:
+                return "slow_work_thread_threshold() = %d for a pool of %d threads, the cap is (n+1)/2 = %d" % (t, n, (n + 1) // 2)
+            return None
+        vf.diff_cases(chk, "slow_work_thread_threshold = Model/ThreadPool.v threshold (n = 1..1024)", cases_t, ia, ib, monitor)
 
     if chk.replay:
         rp = __import__("json").load(open(chk.replay))
@@ -449,13 +500,15 @@ def main():
         cases = [rp["case"]]
     else:
         kind_part(corpus("kinds.txt") + kind_cases(chk.rng, thorough))
+        threshold_part()
         api_part(api_cases())
         fork_part(fork_cases())
         cases = corpus("cases.txt")
         cases += [gen_case(chk.rng, small=True) for _ in range(2000 if thorough else 150)]
         cases += [gen_case(chk.rng) for _ in range(12000 if thorough else 450)]
         # every schedule (choices among enabled threads, no spurious wake-ups) of small configurations
-        for nw, maxreq, limit in ([(1, 3, 10 ** 7), (2, 2, 10 ** 7), (2, 3, 3000)] if thorough else [(1, 2, 10 ** 7)]):
+        for nw, maxreq, limit in ([(1, 3, 10 ** 7), (2, 2, 10 ** 7), (3, 1, 10 ** 7), (2, 3, 3000), (3, 2, 1500)] if thorough
+                                  else [(1, 2, 10 ** 7), (2, 1, 10 ** 7), (3, 1, 10 ** 7)]):
             cfgs = enum_configs(nw, maxreq)
             ex, _, _ = vf.run_lines([model, "enum", str(limit)], cfgs, timeout=1800, shards=8)
             ex = [l for l in ex if l.strip()]
@@ -488,9 +541,7 @@ def main():
                     flaky += 1
             chk.cov["watchdog"] = {"cases": len(bad), "rerun": len(bad[:40]), "not_reproduced": flaky}
             if fatal:
-                print("HARNESS-ERROR: case %r ended with %r and then %r" % fatal)
-                chk.scratch.cleanup()
-                sys.exit(2)
+                harness_errors.append("case %r ended with %r and then %r" % fatal)
     vf.diff_cases(chk, "threadpool.c = Model/ThreadPool.v (lock-step under the serialising scheduler)",
                   cases, a, b, monitor)
 
@@ -516,9 +567,16 @@ def main():
     if cases:
         chk.sample({"case": cases[-1][:160], "impl": a[-1][:300] if a else None})
 
+    if harness_errors and not chk.violations:
+        for h in harness_errors:
+            print("HARNESS-ERROR: " + h)
+        chk.scratch.cleanup()
+        sys.exit(2)
+    for h in harness_errors:
+        print("note: harness error in one part (violations of the other parts are reported): " + h)
     chk.finish(
         level="proof",
-        rule="API completion: 11 submitters x request memory pre-filled with 0x00/0x5A/0xFF x {run, cancelled while "
+        rule="slow_work_thread_threshold() for nthreads 1..1024; API completion: 11 submitters x request memory pre-filled with 0x00/0x5A/0xFF x {run, cancelled while "
              "queued, uv_cancel while running or finished}: callback count and status, unregistration, uv_run and "
              "uv_loop_close afterwards; fork: pools of 1-8 threads with 0..cap+1 slow requests running at the fork, the "
              "child submits one slow and one CPU request; kind table: every public API that uses the pool (uv_queue_work, uv_random, 34 uv_fs_*, uv_getaddrinfo, "
